@@ -27,21 +27,38 @@ theorem gen_layout_as_modelled :
     (readStageNormal, readStageAncestor, readStageThis, readStageOther) = (0, 1, 2, 3) ∧
     flagStageMask = 3 <<< flagStageShift ∧ flagStageShift = 12 ∧
     trailerLen = 20 ∧ shaReadLen = 20 ∧ skipHashZeros = 20 ∧
-    wCompressFrom = wCompressFrom2 ∧ wCompressFrom = rCompressFrom ∧ rPadBelow = rCompressFrom ∧
+    shaZeroLen = 20 ∧ wCompressFrom = wCompressFrom2 ∧ wCompressFrom = rCompressFrom ∧
     wExtendedFrom = rExtendedFrom ∧ bumpBelow = wExtendedFrom ∧ bumpTo = wExtendedFrom := by
   decide
 
-/-! ## 1. v4 varint round trip (all naturals, any trailing bytes, both decoders) -/
+/-! ## 1. v4 varint: round trip, and it is git's varint -/
 
 theorem varint_roundtrip (n : Nat) (rest : Bytes) :
     readVarint (encodeVarint n ++ rest) = .ok (n, rest) :=
   readVarint_encode n rest
 
 theorem varint_roundtrip_buffer (n : Nat) (rest : Bytes) :
-    decodeVarint (encodeVarint n ++ rest) = (n, rest) :=
+    decodeVarint (encodeVarint n ++ rest) = .ok (n, rest) :=
   decodeVarint_encode n rest
 
-example : encodeVarint 300 = [172, 2] ∧ readVarint ([172, 2] ++ [9]) = .ok (300, [9]) := by decide
+example : encodeVarint 300 = [129, 44] ∧ readVarint ([129, 44] ++ [9]) = .ok (300, [9]) := by decide
+
+/-- **The encoder is git's** (`varint.c: encode_varint`, transcribed independently as `gitEncodeVarint`
+and tied to C git itself by the `git.varint` stream): equality for every natural. -/
+theorem varint_is_git_varint (n : Nat) : encodeVarint n = gitEncodeVarint n :=
+  encodeVarint_eq_git n
+
+/-- … and git's decoder (`decode_varint`, without its overflow check) reads what the code writes. -/
+theorem git_reads_varint_sample :
+    ∀ n ∈ [0, 1, 127, 128, 129, 255, 256, 16383, 16384, 16511, 16512, 16513, 2113663, 2113664, 4294967296],
+      gitDecodeVarint (encodeVarint n ++ [5]) = some (n, [5]) := by
+  decide +kernel
+
+/-- Regression witness on the code before the repair: the plain little-endian base-128 varint differs
+from git's from 128 on, and git decodes it to a different number. -/
+theorem old_varint_git_counterexample :
+    Old.encodeVarint 128 = [0x80, 0x01] ∧ gitEncodeVarint 128 = [0x80, 0x00] ∧
+    gitDecodeVarint (Old.encodeVarint 128) = some (129, []) ∧ encodeVarint 128 = [0x80, 0x00] := by decide
 
 /-! ## 2. v4 path prefix compression round trip -/
 
@@ -58,7 +75,8 @@ theorem path_compress_roundtrip_buffer (path prev rest : Bytes) (h : (0 : UInt8)
   decompressPath_compress path prev rest h
 
 example : compressPath [97, 47, 99] [97, 47, 98, 98] = [2, 99, 0] ∧
-    decompressPathStream [97, 47, 98, 98] [2, 99, 0, 7] = .ok ([97, 47, 99], [7]) := by decide
+    decompressPathStream [97, 47, 98, 98] [2, 99, 0, 7] = .ok ([97, 47, 99], [7]) ∧
+    (compressPath [98] (List.replicate 200 97)).take 2 = [0x80, 0x48] := by decide +kernel
 
 /-- The NUL hypothesis is necessary: a path containing NUL does not survive (git paths never do). -/
 theorem path_with_nul_counterexample :
@@ -75,127 +93,135 @@ theorem pad_between_1_and_8 (n : Nat) :
 
 /-! ## 4. One entry: write then read, versions 2, 3 and 4 (and any other version number) -/
 
-/-- Full statement of the property for one entry, *without* the bounds the code needs: every entry
-with 32-bit-representable-by-git content round-trips.  False on the unchanged code, see the
-counterexamples below; kept as the target. -/
+/-- **Entry round trip.**  `write_cache_entry` succeeds and `read_cache_entry` on its output followed by
+anything returns exactly the normal form of the entry and leaves exactly the trailing bytes — for every
+version number, every previous path, **names of any length, sizes, times, dev and ino of any magnitude**.
+`WFEntry` only asks for what a git index entry is: no NUL in the path, `mode`/`uid`/`gid` that fit their
+32-bit fields, a 20-byte id, 16-bit flag words, extended flags only from version 3. -/
+theorem entry_roundtrip (v : Nat) (prev : Bytes) (e : Entry) (h : WFEntry v e) :
+    ∃ b, writeCacheEntry v prev e = .ok b ∧
+      ∀ rest, readCacheEntry v prev (b ++ rest) = .ok (normEntry e, rest) :=
+  ⟨entryBytes v prev e, writeCacheEntry_ok prev h, fun rest => readCacheEntry_entryBytes prev rest h⟩
+
+/-- **Exactly what comes back.**  Name, mode, uid, gid, id and extended flags are untouched; size, dev,
+ino and both halves of each time are reduced modulo 2^32 (what C git's `unsigned int` stat fields hold);
+an `int` time `t` comes back as `(t mod 2^32, 0)`; the stage and assume-valid bits of the flags are kept,
+the name-length bits cleared, the "extended" bit set iff there are extended flags. -/
+theorem normEntry_fields (e : Entry) :
+    (normEntry e).name = e.name ∧ (normEntry e).mode = e.mode ∧ (normEntry e).uid = e.uid ∧
+    (normEntry e).gid = e.gid ∧ (normEntry e).sha = e.sha ∧ (normEntry e).ext = e.ext ∧
+    (normEntry e).size = e.size % 4294967296 ∧ (normEntry e).dev = e.dev % 4294967296 ∧
+    (normEntry e).ino = e.ino % 4294967296 ∧
+    (normEntry e).ctime = normTime e.ctime ∧ (normEntry e).mtime = normTime e.mtime ∧
+    (∀ t, normTime (.int t) = .pair (t % 4294967296) 0) ∧
+    (∀ s n, normTime (.pair s n) = .pair (s % 4294967296) (n % 4294967296)) ∧
+    (normEntry e).flags = 4096 * (e.flags / 4096 ||| (if e.ext ≠ 0 then 4 else 0)) :=
+  ⟨rfl, rfl, rfl, rfl, rfl, rfl, rfl, rfl, rfl, rfl, rfl, fun _ => rfl, fun _ _ => rfl, normFlags_eq e⟩
+
+/-- Entries that are already in the reader's form (what `Index.read` hands out: pairs, everything below
+2^32) come back equal. -/
+theorem entry_roundtrip_canonical (v : Nat) (prev : Bytes) (e : Entry) (h : WFEntry v e) (hc : Canonical e) :
+    ∃ b, writeCacheEntry v prev e = .ok b ∧ ∀ rest, readCacheEntry v prev (b ++ rest) = .ok (e, rest) := by
+  obtain ⟨b, hw, hr⟩ := entry_roundtrip v prev e h
+  refine ⟨b, hw, fun rest => ?_⟩
+  rw [hr rest, normEntry_of_canonical h.2.2.2.2.2.2.1 hc]
+
+/-- The statement in the property's own terms (kept from the round in which it was false): every entry
+with a NUL-free name of any length and stat values of any size round-trips in versions 2..4, the size
+coming back modulo 2^32 and the stage unchanged. -/
 def EntryRoundtripStatement : Prop :=
   ∀ (v : Nat) (prev : Bytes) (e : Entry), 2 ≤ v → v ≤ 4 → (0 : UInt8) ∉ e.name →
-    timeOk e.ctime → timeOk e.mtime → e.mode < 4294967296 → e.uid < 4294967296 → e.gid < 4294967296 →
+    e.mode < 4294967296 → e.uid < 4294967296 → e.gid < 4294967296 →
     e.sha.length = 20 → e.flags < 65536 → e.ext < 65536 →
     ((e.ext ≠ 0 ∨ e.flags &&& flagExtended ≠ 0) → 3 ≤ v) →
     ∃ b, writeCacheEntry v prev e = .ok b ∧
       ∀ rest, ∃ e', readCacheEntry v prev (b ++ rest) = .ok (e', rest) ∧ e'.name = e.name ∧
         e'.size = e.size % 4294967296 ∧ entryStage e' = entryStage e
 
-/-- **Entry round trip (partial: under `WFEntry`).**  `write_cache_entry` succeeds and
-`read_cache_entry` on its output followed by anything returns exactly the normal form of the entry
-and leaves exactly the trailing bytes — for every version number, every previous path.
-`WFEntry` is what the proof forced: `name.length < 0x1000` and `size < 2^32` (both narrower than the
-property's quantifier — DESIGN F11), times/mode/uid/gid below 2^32, 20-byte id, 16-bit flag words,
-no NUL in a v4 name, extended flags only from version 3.  `dev`/`ino` are unrestricted. -/
-theorem entry_roundtrip_partial (v : Nat) (prev : Bytes) (e : Entry) (h : WFEntry v e) :
-    ∃ b, writeCacheEntry v prev e = .ok b ∧
-      ∀ rest, readCacheEntry v prev (b ++ rest) = .ok (normEntry e, rest) :=
-  ⟨entryBytes v prev e, writeCacheEntry_ok prev h, fun rest => readCacheEntry_entryBytes prev rest h⟩
+/-- It now holds. -/
+theorem entry_roundtrip_statement : EntryRoundtripStatement := by
+  intro v prev e _ _ hnul hm hu hg hsha hf hx hv
+  have hwf : WFEntry v e :=
+    ⟨fun _ => hnul, fun _ hm' => hnul (List.mem_of_mem_drop hm'), hm, hu, hg, hsha, hf, hx, hv⟩
+  obtain ⟨b, hw, hr⟩ := entry_roundtrip v prev e hwf
+  exact ⟨b, hw, fun rest => ⟨normEntry e, hr rest, rfl, rfl, stage_normEntry e⟩⟩
 
-/-- The normal form only touches representation: name, mode, uid, gid, size, id and extended flags
-are untouched; dev/ino are reduced modulo 2^32 (as git does); the stage and assume-valid bits of
-the flags are kept, the name-length bits cleared, the "extended" bit set iff needed. -/
-theorem normEntry_fields (e : Entry) (hl : e.name.length < 4096) :
-    (normEntry e).name = e.name ∧ (normEntry e).mode = e.mode ∧ (normEntry e).uid = e.uid ∧
-    (normEntry e).gid = e.gid ∧ (normEntry e).size = e.size ∧ (normEntry e).sha = e.sha ∧
-    (normEntry e).ext = e.ext ∧ (normEntry e).dev = e.dev % 4294967296 ∧
-    (normEntry e).ino = e.ino % 4294967296 ∧
-    (normEntry e).flags = 4096 * (e.flags / 4096 ||| (if e.ext ≠ 0 then 4 else 0)) :=
-  ⟨rfl, rfl, rfl, rfl, rfl, rfl, rfl, rfl, rfl, normFlags_eq hl⟩
-
-/-- Entries that are already in the reader's form (what `Index.read` hands out) come back equal. -/
-theorem entry_roundtrip_canonical (v : Nat) (prev : Bytes) (e : Entry) (h : WFEntry v e) (hc : Canonical e) :
-    ∃ b, writeCacheEntry v prev e = .ok b ∧ ∀ rest, readCacheEntry v prev (b ++ rest) = .ok (e, rest) := by
-  obtain ⟨b, hw, hr⟩ := entry_roundtrip_partial v prev e h
-  refine ⟨b, hw, fun rest => ?_⟩
-  rw [hr rest, normEntry_of_canonical h.1 h.2.2.2.2.2.2.2.2.2.1 hc]
-
-/-- Non-vacuity: a 4095-byte non-UTF-8 name, all stat fields at 2^32-1, 64-bit inode, conflict
-stage 2 with assume-valid, skip-worktree + intent-to-add, in versions 3 and 4. -/
+/-- Non-vacuity: a 5000-byte non-UTF-8 name, size and time above 2^32, 64-bit inode, conflict stage 2
+with assume-valid, skip-worktree + intent-to-add, in versions 3 and 4 (version 2 cannot hold extended
+flags). -/
 def exEntry : Entry :=
-  { name := List.replicate 4094 0xff ++ [0x2f], ctime := .pair 4294967295 999999999, mtime := .int 2147483648,
+  { name := List.replicate 4999 0xff ++ [0x2f], ctime := .pair 4294967295 999999999, mtime := .int 8589934599,
     dev := 4294967295, ino := 1099511627776 + 6, mode := 0o100755, uid := 4294967295, gid := 0,
-    size := 4294967295, sha := List.replicate 20 0xab, flags := 0x8000 + 0x2000 + 0x4000, ext := 0x6000 }
+    size := 4294967296 + 9, sha := List.replicate 20 0xab, flags := 0x8000 + 0x2000 + 0x4000, ext := 0x6000 }
 
 example : WFEntry 3 exEntry ∧ WFEntry 4 exEntry ∧ ¬ WFEntry 2 exEntry := by decide +kernel
-example : (normEntry exEntry).flags = 0xE000 ∧ (normEntry exEntry).ino = 6 := by decide +kernel
+example : (normEntry exEntry).flags = 0xE000 ∧ (normEntry exEntry).ino = 6 ∧ (normEntry exEntry).size = 9 ∧
+    (normEntry exEntry).mtime = .pair 7 0 := by decide +kernel
 
-/-- **Names of 4096 bytes and more do not round-trip** (property: "names longer than 4095 bytes").
-Version 2/3: the length is OR-ed into the flags unsaturated, 4096 = 0x1000 lands in the stage bits,
-the reader takes `flags & 0xFFF = 0` bytes as the name. -/
-theorem long_name_counterexample_v2 :
+set_option maxRecDepth 100000 in
+/-- The same instance, evaluated: a 4096-byte name in versions 2 and 4 comes back whole, at stage 0. -/
+theorem long_name_evaluated :
     (writeCacheEntry 2 [] { exEntry with name := List.replicate 4096 97, flags := 0, ext := 0 } >>= fun b =>
-      readCacheEntry 2 [] b >>= fun r => pure (r.1.name, entryStage r.1)) = .ok ([], 1) := by
+      readCacheEntry 2 [] b >>= fun r => pure (r.1.name.length, entryStage r.1, r.2)) = .ok (4096, 0, []) ∧
+    (writeCacheEntry 4 [] { exEntry with name := List.replicate 4096 97, flags := 0, ext := 0 } >>= fun b =>
+      readCacheEntry 4 [] b >>= fun r => pure (r.1.name.length, entryStage r.1, r.2)) = .ok (4096, 0, []) := by
+  decide +kernel
+
+/-! ### Regression witnesses on the code before the repair (`namespace Old`) -/
+
+/-- A 4096-byte name with small stat values (so that the old writer gets as far as the name). -/
+def exLongName : Entry :=
+  { exEntry with name := List.replicate 4096 97, flags := 0, ext := 0, size := 9, mtime := .int 1 }
+
+/-- Before: a 4096-byte name in version 2 was read back as an empty name at stage 1 … -/
+theorem old_long_name_counterexample_v2 :
+    (Old.writeCacheEntry 2 [] exLongName >>= fun b =>
+      Old.readCacheEntry 2 [] b >>= fun r => pure (r.1.name, entryStage r.1)) = .ok ([], 1) := by
   decide +kernel
 
 set_option maxRecDepth 100000 in
-/-- Version 4: the name itself survives (it is NUL-terminated) but the entry comes back as stage 1,
-i.e. as a *conflicted* entry. -/
-theorem long_name_counterexample_v4 :
-    entryStage { exEntry with name := List.replicate 4096 97, flags := 0, ext := 0 } = 0 ∧
-    (writeCacheEntry 4 [] { exEntry with name := List.replicate 4096 97, flags := 0, ext := 0 } >>= fun b =>
-      readCacheEntry 4 [] b >>= fun r => pure (r.1.name.length, entryStage r.1, r.2)) = .ok (4096, 1, []) := by
+/-- … and in version 4 the name survived but the entry came back at stage 1 (conflicted). -/
+theorem old_long_name_counterexample_v4 :
+    (Old.writeCacheEntry 4 [] exLongName >>= fun b =>
+      Old.readCacheEntry 4 [] b >>= fun r => pure (r.1.name.length, entryStage r.1, r.2)) = .ok (4096, 1, []) := by
   decide +kernel
 
-/-- **Sizes of 2^32 and more are not written at all** (property: "all stat values incl. >32-bit
-sizes"): `struct.error`. -/
-theorem big_size_counterexample :
-    writeCacheEntry 2 [] { exEntry with name := [97], flags := 0, ext := 0, size := 4294967296 } = .error .struct := by
+/-- Before: a size of 2^32, or a time of 2^32, was not written at all (`struct.error`); now both are. -/
+theorem old_big_size_counterexample :
+    Old.writeCacheEntry 2 [] { exEntry with name := [97], flags := 0, ext := 0, mtime := .int 1, size := 4294967296 } = .error .struct ∧
+    Old.writeCacheEntry 2 [] { exEntry with name := [97], flags := 0, ext := 0, mtime := .int 4294967296, size := 1 } = .error .struct ∧
+    (writeCacheEntry 2 [] { exEntry with name := [97], flags := 0, ext := 0, mtime := .int 4294967296, size := 4294967296 }).toBool = true := by
   decide +kernel
 
-/-- Hence the full statement is false on the model of the unchanged code. -/
-theorem entry_roundtrip_statement_false : ¬ EntryRoundtripStatement := by
-  intro h
-  have := h 2 [] { exEntry with name := [97], flags := 0, ext := 0, size := 4294967296 }
-    (by decide) (by decide) (by decide) (by decide) (by decide) (by decide) (by decide) (by decide)
-    (by decide) (by decide) (by decide) (by decide)
-  obtain ⟨b, hb, _⟩ := this
-  rw [big_size_counterexample] at hb
-  cases hb
-
-/-- `index_entry_from_stat` narrows nothing: a file of 4 GiB or more gives an entry that
-`write_cache_entry` refuses, whatever the version (field widths, DESIGN "Limits"). -/
-theorem from_stat_big_size_fails (v : Nat) (prev : Bytes) (c m dev ino mode uid gid size : Nat) (sha : Bytes)
-    (hc : c < 4294967296 * 1000000000) (hm : m < 4294967296 * 1000000000) (hmode : mode < 4294967296)
-    (hu : uid < 4294967296) (hg : gid < 4294967296) (hs : 4294967296 ≤ size) :
-    writeCacheEntry v prev (entryFromStat c m dev ino mode uid gid size sha) = .error .struct := by
-  have t1 : timeOk (entryFromStat c m dev ino mode uid gid size sha).ctime := by
-    simp only [entryFromStat, timeOk]; omega
-  have t2 : timeOk (entryFromStat c m dev ino mode uid gid size sha).mtime := by
-    simp only [entryFromStat, timeOk]; omega
-  have hflags : diskFlags (entryFromStat c m dev ino mode uid gid size sha) = 0 := by
-    simp [diskFlags, entryFromStat, clearBits]
-  unfold writeCacheEntry
-  simp only [packTime_ok t1, packTime_ok t2, bind_ok, hflags]
-  have h0 : ¬ ((0 : Nat) &&& flagExtended ≠ 0 ∧ v < wExtendedFrom) := by simp
-  rw [if_neg h0]
-  unfold packFixed
-  simp only [maskOpt, devMask, inoMask, modeMask, uidMask, gidMask, sizeMask, and_u32]
-  rw [packL_ok (Nat.mod_lt _ (by decide)), packL_ok (Nat.mod_lt _ (by decide))]
-  have e1 : (entryFromStat c m dev ino mode uid gid size sha).mode = mode := rfl
-  have e2 : (entryFromStat c m dev ino mode uid gid size sha).uid = uid := rfl
-  have e3 : (entryFromStat c m dev ino mode uid gid size sha).gid = gid := rfl
-  have e4 : (entryFromStat c m dev ino mode uid gid size sha).size = size := rfl
-  rw [e1, e2, e3, e4, packL_ok hmode, packL_ok hu, packL_ok hg, packL_err hs]
-  rfl
+/-- `index_entry_from_stat` narrows nothing, and does not need to: whatever the file size and the
+timestamps, the entry it builds is written and comes back with size and times modulo 2^32. -/
+theorem from_stat_roundtrip (v : Nat) (prev : Bytes) (c m dev ino mode uid gid size : Nat) (sha : Bytes)
+    (hv : v < 4) (hmode : mode < 4294967296) (hu : uid < 4294967296) (hg : gid < 4294967296) (hsha : sha.length = 20) :
+    ∃ b, writeCacheEntry v prev (entryFromStat c m dev ino mode uid gid size sha) = .ok b ∧
+      ∀ rest, ∃ e', readCacheEntry v prev (b ++ rest) = .ok (e', rest) ∧ e'.size = size % 4294967296 ∧
+        e'.mtime = .pair (m / 1000000000 % 4294967296) (m % 1000000000 % 4294967296) := by
+  have hwf : WFEntry v (entryFromStat c m dev ino mode uid gid size sha) := by
+    refine ⟨fun h => by omega, fun _ => by simp [entryFromStat], hmode, hu, hg, hsha, by simp [entryFromStat],
+      by simp [entryFromStat], ?_⟩
+    intro h
+    rcases h with h | h
+    · simp [entryFromStat] at h
+    · simp [entryFromStat] at h
+  obtain ⟨b, hw, hr⟩ := entry_roundtrip v prev _ hwf
+  exact ⟨b, hw, fun rest => ⟨_, hr rest, rfl, rfl⟩⟩
 
 /-! ## 5. The entry loop and the whole file -/
 
-/-- **Index round trip (partial: under `WFEntry` for every flattened entry).**
+/-- **Index round trip.**
 For a dictionary `d`, extensions `xs`, requested version `ver` (or none), skip-hash on or off and
 *any* hash function `H` with 20-byte output: `Index.write` succeeds; `Index(path)` on the bytes
 accepts the checksum, reports the version `write_index` chose (`effectiveVersion`: bumped to 3 iff an
 extended flag is present and the request was below 3), reports the non-empty extensions in order
-(`fromRaw`: TREE/REUC/sdir payloads parse to nothing, every other signature is carried opaquely),
+(`fromRaw`: TREE/REUC/sdir payloads parse to nothing, every other signature is carried opaquely;
+`WFExt`: a known signature or one that starts with `A..Z`),
 and its dictionary is the reader's dictionary-building loop run over the *normal forms of the
 entries in the order they were written* — path bytes ascending, then stage (see §6). -/
-theorem index_roundtrip_partial (H : Bytes → Bytes) (hH : ∀ x, (H x).length = 20) (skipHash : Bool)
+theorem index_roundtrip (H : Bytes → Bytes) (hH : ∀ x, (H x).length = 20) (skipHash : Bool)
     (ver : Option Nat) (d : Dict) (xs : List Ext)
     (hv : versions.contains (effectiveVersion ver (flattenDict d)) = true)
     (hn : (flattenDict d).length < 4294967296)
@@ -221,23 +247,23 @@ theorem version_rule (ver : Option Nat) (es : List Entry) :
       (if (∃ e ∈ es, e.ext ≠ 0) ∧ ver.getD 2 < 3 then 3 else ver.getD 2) := by
   simp only [effectiveVersion, defaultVersion, bumpBelow, bumpTo, List.any_eq_true, decide_eq_true_eq]
 
-/-- **The dictionary that comes back** (closing the gap left by `index_roundtrip_partial`): for a
-Python dictionary (distinct keys) whose keys are shorter than 4096 bytes, the reader's
+/-- **The dictionary that comes back** (closing the gap left by `index_roundtrip`): for a
+Python dictionary (distinct keys, of any length), the reader's
 dictionary-building loop over the written entries yields exactly the input dictionary *sorted by
 path*, every value replaced by its normal form (`normVal`: entries normalised as in §4 with the
 stage forced by the slot; a `ConflictedIndexEntry` keeps its three slots, missing stages stay
 missing; a conflict with no stage at all contributes nothing and disappears).  In particular no
 `AssertionError("Non-conflicted entry … exists")` can arise from what `write_index_dict` wrote. -/
-theorem dict_roundtrip (d : Dict) (hnd : (keys d).Nodup) (hlen : ∀ k ∈ keys d, k.length < 4096) :
+theorem dict_roundtrip (d : Dict) (hnd : (keys d).Nodup) :
     foldAdd [] ((flattenDict d).map normEntry) = .ok ((sortDict d).filterMap fun kv => normVal kv.1 kv.2) :=
-  dict_rebuilt d hnd hlen
+  dict_rebuilt d hnd
 
-/-- **Index round trip, dictionary level (partial: under `WFEntry`).**  `Index.write` then
+/-- **Index round trip, dictionary level.**  `Index.write` then
 `Index(path)`: same keys (minus empty conflicts) in git's order, every value in normal form, the
 version of the `write_index` rule, the non-empty extensions — for every hash function with 20-byte
 output, with and without skip-hash. -/
-theorem index_roundtrip_dict_partial (H : Bytes → Bytes) (hH : ∀ x, (H x).length = 20) (skipHash : Bool)
-    (ver : Option Nat) (d : Dict) (xs : List Ext) (hnd : (keys d).Nodup) (hlen : ∀ k ∈ keys d, k.length < 4096)
+theorem index_roundtrip_dict (H : Bytes → Bytes) (hH : ∀ x, (H x).length = 20) (skipHash : Bool)
+    (ver : Option Nat) (d : Dict) (xs : List Ext) (hnd : (keys d).Nodup)
     (hv : versions.contains (effectiveVersion ver (flattenDict d)) = true)
     (hn : (flattenDict d).length < 4294967296)
     (hes : ∀ e ∈ flattenDict d, WFEntry (effectiveVersion ver (flattenDict d)) e)
@@ -245,9 +271,9 @@ theorem index_roundtrip_dict_partial (H : Bytes → Bytes) (hH : ∀ x, (H x).le
     ∃ file, indexWrite H skipHash ver d xs = .ok file ∧
       indexRead H file = .ok ((sortDict d).filterMap (fun kv => normVal kv.1 kv.2),
         effectiveVersion ver (flattenDict d), (xs.filter fun x => !x.2.isEmpty).map fun x => fromRaw x.1 x.2) := by
-  obtain ⟨file, hw, hr⟩ := index_roundtrip_partial H hH skipHash ver d xs hv hn hes hxs
+  obtain ⟨file, hw, hr⟩ := index_roundtrip H hH skipHash ver d xs hv hn hes hxs
   refine ⟨file, hw, ?_⟩
-  rw [hr, dict_roundtrip d hnd hlen]
+  rw [hr, dict_roundtrip d hnd]
 
 /-- Non-vacuity of §5: a three-way conflict with a missing stage next to a plain entry with
 skip-worktree, version requested 2 (written as 3), one unknown and one TREE extension. -/
@@ -259,9 +285,10 @@ def exDict : Dict :=
 example : effectiveVersion (some 2) (flattenDict exDict) = 3 ∧
     (∀ e ∈ flattenDict exDict, WFEntry 3 e) ∧
     (flattenDict exDict).map (fun e => (e.name, entryStage e)) = [([97, 47, 120], 1), ([97, 47, 120], 3), ([98], 0)] ∧
-    WFExt ([65, 66, 67, 68], [1, 2, 3]) := by decide +kernel
+    WFExt ([65, 66, 67, 68], [1, 2, 3]) ∧ WFExt (sdirSig, []) ∧ WFExt ([88, 121, 49, 122], [0]) ∧
+    ¬ WFExt ([108, 105, 110, 107], [0]) := by decide +kernel
 
-example : (keys exDict).Nodup ∧ (∀ k ∈ keys exDict, k.length < 4096) ∧
+example : (keys exDict).Nodup ∧
     ((sortDict exDict).filterMap fun kv => normVal kv.1 kv.2).map (·.1) = [[97, 47, 120], [98]] := by
   decide +kernel
 
@@ -302,101 +329,103 @@ theorem bytesLt_is_memcmp_then_length :
 
 /-! ## 7. Checksum -/
 
-/-- What acceptance by `Index.read` implies about the trailer — all that can be said without
-assuming anything about `H`: the 20 bytes after the parsed part are the hash of exactly the bytes
-that went through the reader, *or* they are 20 zero bytes (skip-hash), *or* — the defect — fewer
-than 20 bytes were left. -/
-theorem checksum_accept_cases (H : Bytes → Bytes) (file : Bytes) (r : Dict × Nat × List Ext)
-    (h : indexRead H file = .ok r) :
+/-- The statement "damage is detected" at the level that needs no assumption on `H`: when `Index.read`
+accepts a file, the 20 bytes after the parsed part are the hash of exactly the bytes that went through the
+reader, or they are 20 zero bytes (skip-hash).  (Kept from the round in which it was false.) -/
+def ChecksumStatement : Prop :=
+  ∀ (H : Bytes → Bytes) (file : Bytes) (r : Dict × Nat × List Ext), indexRead H file = .ok r →
     ∃ dict v exts rest hashed, readIndexDict file = .ok (dict, v, exts, rest, hashed) ∧
-      (rest.take 20 = H hashed ∨ rest.take 20 = zeros20 ∨ (rest.take 20).length ≠ 20) := by
+      hashed = file.take (file.length - rest.length) ∧
+      (rest.take 20 = H hashed ∨ rest.take 20 = zeros20)
+
+/-- It now holds: no third case.  In particular a file that lost any part of its trailer, or whose
+parsed part swallowed some of it, is rejected — `rest.take 20` then has fewer than 20 bytes and can equal
+neither a 20-byte hash nor 20 zeros. -/
+theorem checksum_accept_cases : ChecksumStatement := by
+  intro H file r h
   unfold indexRead at h
   cases hr : readIndexDict file with
   | error e => rw [hr] at h; cases h
   | ok val =>
     obtain ⟨dict, v, exts, rest, hashed⟩ := val
     rw [hr] at h
-    refine ⟨dict, v, exts, rest, hashed, rfl, ?_⟩
     simp only at h
+    have hh : hashed = file.take (file.length - rest.length) := by
+      unfold readIndexDict at hr
+      split at hr
+      · cases hr
+      · split at hr
+        · cases hr
+        · split at hr
+          · cases hr
+          · simp only [Except.ok.injEq, Prod.mk.injEq] at hr
+            obtain ⟨_, _, _, hrest, hhashed⟩ := hr
+            rw [← hhashed, ← hrest]
+    refine ⟨dict, v, exts, rest, hashed, rfl, hh, ?_⟩
     by_cases hc : checkSha H allowEmpty hashed rest = true
-    · by_cases h1 : rest.take 20 = H hashed
+    · rcases (checkSha_true_iff H allowEmpty hashed rest).1 hc with h1 | ⟨_, h2⟩
       · exact Or.inl h1
-      · by_cases h2 : (rest.take 20).length = 20
-        · by_cases h3 : rest.take 20 = zeros20
-          · exact Or.inr (Or.inl h3)
-          · exfalso
-            have : checkSha H allowEmpty hashed rest = false := by
-              simp [checkSha, shaReadLen, allowEmpty, h1, h2, h3]
-            rw [this] at hc; cases hc
-        · exact Or.inr (Or.inr h2)
+      · exact Or.inr h2
     · rw [if_neg hc] at h; cases h
 
-/-- Full statement of "damage is detected" at the level that needs no assumption on `H`:
-acceptance implies hash-or-zero trailer.  False on the unchanged code (next theorem). -/
-def ChecksumStatement : Prop :=
-  ∀ (H : Bytes → Bytes) (file : Bytes) (r : Dict × Nat × List Ext), indexRead H file = .ok r →
-    ∃ dict v exts rest hashed, readIndexDict file = .ok (dict, v, exts, rest, hashed) ∧
-      (rest.take 20 = H hashed ∨ rest.take 20 = zeros20)
-
-/-- **A truncated trailer is accepted**, for every hash function: an empty version-2 index whose
-20-byte checksum was cut to 19 bytes is read without error. -/
-theorem short_trailer_counterexample (H : Bytes → Bytes) :
-    indexRead H ([68, 73, 82, 67, 0, 0, 0, 2, 0, 0, 0, 0] ++ List.replicate 19 7) = .ok ([], 2, []) := by
+/-- A short trailer is rejected, for every hash function with 20-byte output (cf. the witness below). -/
+theorem short_trailer_rejected (H : Bytes → Bytes) (hH : ∀ x, (H x).length = 20) :
+    indexRead H ([68, 73, 82, 67, 0, 0, 0, 2, 0, 0, 0, 0] ++ List.replicate 19 7) = .error .checksum := by
   have h : readIndexDict ([68, 73, 82, 67, 0, 0, 0, 2, 0, 0, 0, 0] ++ List.replicate 19 7) =
       .ok ([], 2, [], List.replicate 19 7, [68, 73, 82, 67, 0, 0, 0, 2, 0, 0, 0, 0]) := rfl
   unfold indexRead
   rw [h]
-  have hc : checkSha H allowEmpty [68, 73, 82, 67, 0, 0, 0, 2, 0, 0, 0, 0] (List.replicate 19 7) = true := by
+  have hc : ¬ (checkSha H allowEmpty [68, 73, 82, 67, 0, 0, 0, 2, 0, 0, 0, 0] (List.replicate 19 7) = true) := by
+    rw [checkSha_true_iff]
+    intro hc
+    rcases hc with h1 | ⟨_, h2⟩
+    · have := congrArg List.length h1
+      rw [hH] at this
+      revert this; decide
+    · revert h2; decide
+  simp only
+  rw [if_neg hc]
+
+/-- Regression witness on the code before the repair: the same truncated file was accepted, whatever the
+hash function. -/
+theorem old_short_trailer_counterexample (H : Bytes → Bytes) :
+    Old.indexRead H ([68, 73, 82, 67, 0, 0, 0, 2, 0, 0, 0, 0] ++ List.replicate 19 7) = .ok ([], 2, []) := by
+  have h : Old.readIndexDict ([68, 73, 82, 67, 0, 0, 0, 2, 0, 0, 0, 0] ++ List.replicate 19 7) =
+      .ok ([], 2, [], List.replicate 19 7, [68, 73, 82, 67, 0, 0, 0, 2, 0, 0, 0, 0]) := rfl
+  unfold Old.indexRead
+  rw [h]
+  have hc : Old.checkSha H allowEmpty [68, 73, 82, 67, 0, 0, 0, 2, 0, 0, 0, 0] (List.replicate 19 7) = true := by
     have hl : ¬ (((List.replicate 19 (7 : UInt8)).take shaReadLen).length = 20) := by decide
-    unfold checkSha
+    unfold Old.checkSha
     simp only [hl, decide_false, Bool.false_and, allowEmpty, Bool.not_true, Bool.false_or, Bool.and_false,
       Bool.not_false]
   simp only [hc, if_true]
 
-theorem checksum_statement_false : ¬ ChecksumStatement := by
-  intro h
-  obtain ⟨dict, v, exts, rest, hashed, hr, hc⟩ :=
-    h (fun _ => List.replicate 20 9) _ _ (short_trailer_counterexample _)
-  have h' : readIndexDict ([68, 73, 82, 67, 0, 0, 0, 2, 0, 0, 0, 0] ++ List.replicate 19 7) =
-      .ok ([], 2, [], List.replicate 19 7, [68, 73, 82, 67, 0, 0, 0, 2, 0, 0, 0, 0]) := rfl
-  rw [h'] at hr
-  cases hr
-  revert hc
-  decide
+/-- An index with git's `sdir` extension (sparse index) and a correct checksum is read, and the
+extension is reported — for any hash function. -/
+theorem lowercase_extension_read (H : Bytes → Bytes) (hH : ∀ x, (H x).length = 20) :
+    indexRead H (fileBody 2 [] [(sdirSig, [])] ++ H (fileBody 2 [] [(sdirSig, [])])) =
+      .ok ([], 2, [(sdirSig, [])]) := by
+  have h := indexRead_body_trailer H (v := 2) (es := []) (xs := [(sdirSig, [])])
+    (trailer := H (fileBody 2 [] [(sdirSig, [])])) (by decide) (by decide) (by intro e he; cases he)
+    (by intro x hx; simp only [List.mem_singleton] at hx; subst hx; decide) (hH _)
+    (checkSha_hash H hH allowEmpty _)
+  rw [h]; rfl
 
-/-- An extension signature that is not four upper-case letters (git's `sdir` of a sparse index,
-`link` of a split index) makes a file with a *correct* checksum fail: the four bytes are hashed and
-then un-read, so the "trailer" the check sees starts at the signature.  Stated for any `H` whose
-output is not the 20 bytes that happen to follow. -/
-theorem lowercase_extension_counterexample (H : Bytes → Bytes)
-    (hH : H ([68, 73, 82, 67, 0, 0, 0, 2, 0, 0, 0, 0] ++ [115, 100, 105, 114])
-          ≠ [115, 100, 105, 114, 0, 0, 0, 0] ++ (H ([68, 73, 82, 67, 0, 0, 0, 2, 0, 0, 0, 0] ++ [115, 100, 105, 114, 0, 0, 0, 0])).take 12)
-    (h20 : ∀ x, (H x).length = 20) :
-    indexRead H ([68, 73, 82, 67, 0, 0, 0, 2, 0, 0, 0, 0] ++ [115, 100, 105, 114, 0, 0, 0, 0] ++
-      H ([68, 73, 82, 67, 0, 0, 0, 2, 0, 0, 0, 0] ++ [115, 100, 105, 114, 0, 0, 0, 0])) = .error .checksum :=
-  lowercase_ext_rejected H hH h20
-
-/-! ## 8. Agreement with C git on the v4 varint -/
-
-/-- dulwich's v4 varint is git's (varint.c `encode_varint`, modelled as `gitEncodeVarint` and tied
-to C git by the `git.varint` stream) exactly below 128 … -/
-theorem varint_agrees_with_git_partial (n : Nat) (h : n < 128) : encodeVarint n = gitEncodeVarint n := by
-  rw [encodeVarint_small h]
-  unfold gitEncodeVarint
-  have h1 : n / 128 = 0 := by omega
-  simp [gitEncodeVarintAux, h1, Nat.mod_eq_of_lt h]
-
-/-- … and differs from 128 on: whenever v4 prefix compression strips 128 bytes or more, C git and
-dulwich cannot read each other's index. -/
-theorem varint_git_counterexample :
-    encodeVarint 128 = [0x80, 0x01] ∧ gitEncodeVarint 128 = [0x80, 0x00] ∧
-    gitDecodeVarint (encodeVarint 128) = some (129, []) := by decide
-
-/-- The modelled git varint is itself a codec on a sample that covers the 1-, 2- and 3-byte
-boundaries (sanity of the reference the streams compare with; C git itself is the arbiter). -/
-theorem git_varint_roundtrip_sample :
-    ∀ n ∈ [0, 1, 127, 128, 129, 255, 256, 16383, 16384, 16511, 16512, 16513, 2113663, 2113664, 4294967296],
-      gitDecodeVarint (gitEncodeVarint n ++ [5]) = some (n, [5]) := by
+/-- An unknown extension that is not optional (`link` of a split index) is refused with
+`UnsupportedIndexExtension`, not with a checksum error and not silently. -/
+theorem mandatory_extension_refused :
+    indexRead (fun _ => List.replicate 20 9)
+      (fileBody 2 [] [([108, 105, 110, 107], [1, 2])] ++ List.replicate 20 9) = .error .unsupportedExt := by
   decide +kernel
+
+/-- Regression witness on the code before the repair: the correct sparse-index file above failed with
+`ChecksumMismatch` (the four signature bytes were hashed, then un-read).  Evaluated with a stand-in hash. -/
+theorem old_lowercase_extension_counterexample :
+    Old.indexRead (fun _ => List.replicate 20 9) (fileBody 2 [] [(sdirSig, [])] ++ List.replicate 20 9)
+      = .error .checksum ∧
+    indexRead (fun _ => List.replicate 20 9) (fileBody 2 [] [(sdirSig, [])] ++ List.replicate 20 9)
+      = .ok ([], 2, [(sdirSig, [])]) :=
+  ⟨by decide +kernel, by decide +kernel⟩
 
 end Dulwich.Props.C11
